@@ -160,8 +160,10 @@ def gen_config(rng, index):
         km["sigma_v_systematics"] = True; lo_k["sigma_v_sys_error"], hi_k["sigma_v_sys_error"] = 0.0, 0.2
     km.update(sne_apparent_m_sampling=True, sne_distribution="GAUSSIAN", z_apparent_m_anchor=float(rng.choice([0.1, 0.2])))
     lo_s.update(mu_sne=18.0, sigma_sne=0.0); hi_s.update(mu_sne=21.0, sigma_sne=0.3)
-    km.update(los_sampling=True, los_distributions=["GAUSSIAN", "GAUSSIAN"])
-    lo_los = [dict(mean=-0.1, sigma=0.0), dict(mean=-0.1, sigma=0.0)]; hi_los = [dict(mean=0.1, sigma=0.1), dict(mean=0.1, sigma=0.1)]
+    losd = [str(rng.choice(["GAUSSIAN", "GEV"])) for _ in range(2)]          # global line-of-sight populations (GEV draws through scipy.stats)
+    km.update(los_sampling=True, los_distributions=losd)
+    lo_los = [dict(mean=-0.1, sigma=0.0, **({"xi": -0.2} if q == "GEV" else {})) for q in losd]
+    hi_los = [dict(mean=0.1, sigma=0.1, **({"xi": 0.2} if q == "GEV" else {})) for q in losd]
     if cosmology == "FLCDM" and rng.random() < 0.3:
         fixed_c["om"] = 0.31; lo_c.pop("om"); hi_c.pop("om")
     # lenses: every type once (shuffled), extra random ones
